@@ -201,6 +201,9 @@ class UsertypeFluentsRemover(engines.engine.Engine, CompilerMixin):
         new_to_old: Dict[Action, Optional[Action]] = {}
 
         new_problem = Problem(f"{self.name}_{problem.name}", env)
+        new_problem.epsilon = problem.epsilon
+        new_problem.discrete_time = problem.discrete_time
+        new_problem.self_overlapping = problem.self_overlapping
         new_problem.add_objects(problem.all_objects)
 
         fluents_map: Dict[Fluent, Fluent] = {}
